@@ -49,6 +49,7 @@ def find_function(key):
     """key: 'models.pddl_type:PDDLType.is_sub_type_aux' | 'models.numerical_expression:calculate'
     | 'models.numerical_expression:COMPARISON_OPERATORS[<=]' (a lambda in a module-level dict)."""
     mod, qual = key.split(":", 1)
+    qual = qual.split("@")[0]          # "@variant" selects one of several contracts of the same function
     text, tree = load_module(mod)
     if "[" in qual:
         table, k = qual[:-1].split("[", 1)
